@@ -8,7 +8,7 @@ import math
 import numpy as np
 
 from ..core import Streams, Violation, import_pyprism
-from .base import BaseWorld, lib, must_raise, wrap_keys, KEY_CONTAINERS
+from .base import BaseWorld, lib, must_raise, wrap_keys, KEY_CONTAINERS, fresh_key
 from .c14 import NAMESETS, gen_keys
 
 TOL = 1e-12
@@ -85,31 +85,31 @@ class World(BaseWorld):
             if not close(got_tot, tot):
                 raise Violation('total_stale', opname, {'got': got_tot, 'want': tot}, step)
             for a in types:
-                got = lib('density[t]', D.__getitem__, a)
+                got = lib('density[t]', D.__getitem__, fresh_key(a))
                 if (a in dens) != (got is not None) or (a in dens and not close(float(got), float(dens[a]))):
                     raise Violation('density_value_wrong', opname, {'key': a, 'got': repr(got), 'want': dens.get(a)}, step)
-                gd = lib('diameter[t]', S.__getitem__, a)
+                gd = lib('diameter[t]', S.__getitem__, fresh_key(a))
                 if (a in diam) != (gd is not None) or (a in diam and not close(float(gd), float(diam[a]))):
                     raise Violation('diameter_value_wrong', opname, {'key': a, 'got': repr(gd), 'want': diam.get(a)}, step)
                 if a in diam:
-                    vol = float(lib('volume[t]', S.volume.__getitem__, a))
+                    vol = float(lib('volume[t]', S.volume.__getitem__, fresh_key(a)))
                     want = math.pi * float(diam[a]) ** 3 / 6.0
                     if not close(vol, want):
                         raise Violation('volume_wrong', opname, {'key': a, 'got': vol, 'want': want}, step)
                 for b in types:
                     if a in dens and b in dens:
                         ra, rb = float(dens[a]), float(dens[b])
-                        gp = scalar(lib('pair[a,b]', D.pair.__getitem__, (a, b)), opname, 'pair')
+                        gp = scalar(lib('pair[a,b]', D.pair.__getitem__, (fresh_key(a), fresh_key(b))), opname, 'pair')
                         if not close(gp, ra * rb):
                             raise Violation('pair_density_stale', opname, {'key': [a, b], 'got': gp, 'want': ra * rb}, step)
-                        gs = scalar(lib('site[a,b]', D.site.__getitem__, (a, b)), opname, 'site')
+                        gs = scalar(lib('site[a,b]', D.site.__getitem__, (fresh_key(a), fresh_key(b))), opname, 'site')
                         ws = ra if a == b else ra + rb
                         if not close(gs, ws):
                             raise Violation('site_density_stale', opname, {'key': [a, b], 'got': gs, 'want': ws}, step)
                     if a in diam and b in diam:
                         ws = (float(diam[a]) + float(diam[b])) / 2.0
-                        g1 = lib('sigma[a,b]', S.sigma.__getitem__, (a, b))
-                        g2 = lib('diameter[a,b]', S.__getitem__, [a, b])
+                        g1 = lib('sigma[a,b]', S.sigma.__getitem__, (fresh_key(a), fresh_key(b)))
+                        g2 = lib('diameter[a,b]', S.__getitem__, [fresh_key(a), fresh_key(b)])
                         for g, what in ((g1, 'sigma[a,b]'), (g2, 'diameter[a,b]')):
                             if g is None or not close(float(g), ws):
                                 raise Violation('sigma_stale', opname, {'key': [a, b], 'via': what, 'got': repr(g), 'want': ws}, step)
@@ -122,7 +122,7 @@ class World(BaseWorld):
                 val = mat(op['val'])
                 keys = op['k'] if isinstance(op['k'], list) else [op['k']]
                 tbl, mdl = (D, dens) if name == 'dens' else (S, diam)
-                lib(name + '.setitem', tbl.__setitem__, wrap_keys(op['k'], op.get('kc')), val)
+                lib(name + '.setitem', tbl.__setitem__, wrap_keys(fresh_key(op['k']), op.get('kc')), val)
                 if isinstance(op['k'], list):
                     ctx.probe('list_assignment')
                     ctx.probe('keys_as_' + (op.get('kc') or 'list'))
